@@ -179,7 +179,7 @@ def _f32(x):
 
 
 def gen_taxonomy(rng, w, nt=None, conflict_bias=False, names='hostile', cr_names=False):
-	nt = nt or rng.randint(2, 10)
+	nt = nt or rng.randint(2, 13)   # > 10 so that keys such as t1 / t10 / t11 (one a prefix of the other) occur
 	pool = list(HOSTILE) + (CR_NAMES if cr_names else [])
 	for i in range(nt):
 		parent = None if (i == 0 or rng.random() < 0.12) else w.taxa[rng.randrange(i)]
